@@ -24,6 +24,8 @@ import (
 const verifyieldSrc = `// Package verifyield is added to scratch copies of zlint by the verification harness.
 package verifyield
 
+import "time"
+
 // Hook is nil unless a simulation installs it.
 var Hook func(site string)
 
@@ -33,6 +35,27 @@ func Y(site string) {
 		h(site)
 	}
 }
+
+// Clock is nil unless a simulation installs a simulated clock. Every textual
+// time.Now / time.Since / time.Until of the instrumented packages reads it.
+var Clock func(site string) time.Time
+
+func Now(site string) func() time.Time {
+	return func() time.Time {
+		if c := Clock; c != nil {
+			return c(site)
+		}
+		return time.Now()
+	}
+}
+
+func Since(site string) func(time.Time) time.Duration {
+	return func(t time.Time) time.Duration { return Now(site)().Sub(t) }
+}
+
+func Until(site string) func(time.Time) time.Duration {
+	return func(t time.Time) time.Duration { return t.Sub(Now(site)()) }
+}
 `
 
 func instrumentMain(args []string) {
@@ -40,7 +63,7 @@ func instrumentMain(args []string) {
 		die(2, "usage: zsim instrument <src v3 dir> <dst v3 dir>")
 	}
 	src, dst := args[0], args[1]
-	nFiles, nFuncs := 0, 0
+	nFiles, nFuncs, nClockSites := 0, 0, 0
 	err := filepath.WalkDir(src, func(path string, d fs.DirEntry, err error) error {
 		if err != nil {
 			return err
@@ -63,7 +86,7 @@ func instrumentMain(args []string) {
 		top := strings.Split(rel, string(filepath.Separator))[0]
 		instr := strings.HasSuffix(rel, ".go") && (top == "lint" || top == "lints" || top == "util" || rel == "resultset.go" || rel == "zlint.go")
 		if instr {
-			out, n, ierr := instrumentFile(rel, data)
+			out, n, nc, ierr := instrumentFile(rel, data)
 			if ierr != nil {
 				return fmt.Errorf("%s: %v", rel, ierr)
 			}
@@ -71,6 +94,7 @@ func instrumentMain(args []string) {
 				nFiles++
 				nFuncs += n
 			}
+			nClockSites += nc
 			data = out
 		}
 		return os.WriteFile(filepath.Join(dst, rel), data, 0o644)
@@ -82,17 +106,18 @@ func instrumentMain(args []string) {
 	if err := os.WriteFile(filepath.Join(dst, "verifyield", "verifyield.go"), []byte(verifyieldSrc), 0o644); err != nil {
 		die(2, "instrument: %v", err)
 	}
-	fmt.Printf("instrument: %d functions in %d files\n", nFuncs, nFiles)
+	fmt.Printf("instrument: %d functions in %d files, %d clock sites\n", nFuncs, nFiles, nClockSites)
 }
 
-func instrumentFile(rel string, data []byte) ([]byte, int, error) {
+func instrumentFile(rel string, data []byte) ([]byte, int, int, error) {
 	fset := token.NewFileSet()
 	f, err := parser.ParseFile(fset, rel, data, parser.SkipObjectResolution)
 	if err != nil {
-		return nil, 0, err
+		return nil, 0, 0, err
 	}
 	type ins struct {
 		off  int
+		del  int // bytes replaced at off (0 = pure insertion)
 		text string
 	}
 	var inss []ins
@@ -113,18 +138,56 @@ func instrumentFile(rel string, data []byte) ([]byte, int, error) {
 			}
 		}
 		off := fset.Position(fd.Body.Lbrace).Offset + 1
-		inss = append(inss, ins{off, fmt.Sprintf(" verifyield.Y(%q);", dir+"."+name)})
+		inss = append(inss, ins{off: off, text: fmt.Sprintf(" verifyield.Y(%q);", dir+"."+name)})
+	}
+	// the clock seam: every selector time.Now / time.Since / time.Until (called or passed as a
+	// value) is redirected to the simulated clock of package verifyield
+	timeName := ""
+	for _, im := range f.Imports {
+		if im.Path.Value == `"time"` {
+			timeName = "time"
+			if im.Name != nil {
+				timeName = im.Name.Name
+			}
+		}
+	}
+	nClock := 0
+	if timeName != "" && timeName != "_" && timeName != "." {
+		ast.Inspect(f, func(n ast.Node) bool {
+			se, ok := n.(*ast.SelectorExpr)
+			if !ok {
+				return true
+			}
+			id, ok := se.X.(*ast.Ident)
+			if !ok || id.Name != timeName {
+				return true
+			}
+			switch se.Sel.Name {
+			case "Now", "Since", "Until":
+				from := fset.Position(se.Pos()).Offset
+				to := fset.Position(se.End()).Offset
+				site := fmt.Sprintf("%s:%d", filepath.ToSlash(rel), fset.Position(se.Pos()).Line)
+				inss = append(inss, ins{off: from, del: to - from, text: fmt.Sprintf("verifyield.%s(%q)", se.Sel.Name, site)})
+				nClock++
+			}
+			return true
+		})
 	}
 	if len(inss) == 0 {
-		return data, 0, nil
+		return data, 0, 0, nil
+	}
+	nFuncs := len(inss) - nClock
+	if nClock > 0 {
+		// keep the time import used whatever else the file does with it
+		inss = append(inss, ins{off: len(data), text: "\nvar _ = " + timeName + ".Now\n"})
 	}
 	// the import goes right after the package clause (a further import declaration is legal there)
 	pkgEnd := fset.Position(f.Name.End()).Offset
-	inss = append(inss, ins{pkgEnd, "; import \"github.com/zmap/zlint/v3/verifyield\""})
-	sort.Slice(inss, func(i, j int) bool { return inss[i].off > inss[j].off })
+	inss = append(inss, ins{off: pkgEnd, text: "; import \"github.com/zmap/zlint/v3/verifyield\""})
+	sort.SliceStable(inss, func(i, j int) bool { return inss[i].off > inss[j].off })
 	out := append([]byte(nil), data...)
 	for _, x := range inss {
-		out = append(out[:x.off], append([]byte(x.text), out[x.off:]...)...)
+		out = append(out[:x.off], append([]byte(x.text), out[x.off+x.del:]...)...)
 	}
-	return out, len(inss) - 1, nil
+	return out, nFuncs, nClock, nil
 }
